@@ -110,7 +110,12 @@ ReadPointers == /\ pc = "pointers" /\ status = "run"
 NameOf(name3) == IF \E p \in Products : BlockNames[p] = name3
                    THEN CHOOSE p \in Products : BlockNames[p] = name3 ELSE "unknown"
 
-(* Seek to the pointer, peek the 4-byte block id, dispatch on its name and read the block *)
+(* Seek to the pointer, peek the 4-byte block id, dispatch on its name and read the block.
+   Pointers are relative to the first byte of the message, which this machine places at offset 0 of `bytes`.  The
+   code reads the message from wherever its reader stands (offset 28 inside a framed stream): PositionInvariance --
+   the decoded value and the number of bytes consumed are those of this machine for EVERY stream offset -- is bound
+   by the driver, which decodes each vector again behind 28 and behind gap-sized prefixes (the offsets at which an
+   absolute position can coincide with a relative pointer). *)
 ReadBlock ==
     /\ pc = "seek" /\ status = "run"
     /\ IF pi > Len(ptrs)
